@@ -69,8 +69,11 @@ def judge(case, obs):
             v("EXHAUSTED_WITH_NOTHING_CHECKED_OUT:%s" % op[0], "call %d %s raised %r [%s]" % (i, op[0], out[2], fclass))
         # (a) failed socket still open after the call / used later
         for s in net.socks:
-            if s.fault_call == i and s.fault_kind is not None and hard(s.fault_kind) \
-                    and (not isinstance(s.fault_kind, tuple) or s.trunc_effective):
+            reply_fault_failed_call = (isinstance(s.fault_kind, tuple) and s.fault_kind[0] == "rline" and out[0] == "exc"
+                                       and out[1] not in ("MemcacheIllegalInputError", "KeyError"))   # KeyError: item protocol on a miss
+            if s.fault_call == i and s.fault_kind is not None and (
+                    (hard(s.fault_kind) and (not isinstance(s.fault_kind, tuple) or s.trunc_effective))
+                    or reply_fault_failed_call):     # a nonsensical reply line that made the call raise: the call failed on it
                 # 'a connection on which a call failed': the call must actually have failed on it.  A truncated /
                 # closed stream after a call that did not wait for a reply is invisible to the client.
                 certain = True        # a hard error on a socket call, or reply bytes actually withheld
@@ -256,6 +259,70 @@ def random_history(res, rng, tier):
     record(res, case, o, nt, sample=res.evaluations % 1501 == 0)
 
 
+def multi_connection_idle(res, rng, count):
+    """several connections checked out at once (what concurrent callers produce), released at different times, then
+    checkouts after gaps: whatever is still idle in the pool after a checkout must not have been idle longer than the
+    timeout, and nothing that was idle <= timeout may have been retired.  Driven on the pool beneath PooledClient with
+    the real inner Clients over FakeNet and the virtual pool clock."""
+    import pymemcache.client.base as base
+    for _ in range(count):
+        T = rng.choice([5, 5, 9])
+        w = driver.World({"stack": "pooled", "servers": [("mc1", 11211)], "cfg": {"pool_idle_timeout": T}, "prefill": {}})
+        pool = w.obj.client_pool
+        released_at = {}
+        held = []
+        plan = []
+        try:
+            for step in range(rng.randrange(4, 14)):
+                c = rng.random()
+                if c < 0.4 or not (held or pool.free):
+                    before_free = {id(o): o for o in pool.free}
+                    w.net.begin_call(("pool", step))
+                    o = pool.get()
+                    o.get("k")                     # make it a real connection
+                    held.append(o)
+                    plan.append("get")
+                    now = w.clock.now()
+                    # objects that left the free list in this checkout without being handed out were retired
+                    for oid, obj in before_free.items():
+                        if obj is not o and all(obj is not f for f in pool.free):
+                            idle = now - released_at[oid]
+                            if idle <= T:
+                                res.violation("multi:healthy-connection-retired-early", "a connection idle %.0fs <= %r was retired at checkout; plan %r"
+                                              % (idle, T, plan), ("multi", plan))
+                            elif obj.sock is not None:
+                                res.violation("multi:expired-connection-left-open", "retired connection still open; plan %r" % (plan,), ("multi", plan))
+                            else:
+                                res.count("expiries_observed")
+                    if id(o) in before_free:
+                        idle = now - released_at[id(o)]
+                        if idle > T:
+                            res.violation("multi:expired-connection-reused", "checkout handed out a connection idle %.0fs > %r; plan %r" % (idle, T, plan),
+                                          ("multi", plan))
+                        else:
+                            res.count("reuses_observed")
+                    for f in pool.free:
+                        idle = now - released_at[id(f)]
+                        if idle > T:
+                            res.violation("multi:expired-connection-left-in-pool",
+                                          "after a checkout a connection idle %.0fs > %r is still open in the pool (never examined); plan %r"
+                                          % (idle, T, plan), ("multi", plan))
+                            break
+                elif c < 0.75 and held:
+                    o = held.pop(rng.randrange(len(held)))
+                    pool.release(o)
+                    released_at[id(o)] = w.clock.now()
+                    plan.append("release")
+                else:
+                    g = rng.choice([1, 2, T - 1, T, T + 1, 3 * T])
+                    w.clock.advance(g)
+                    plan.append("adv%d" % g)
+            res.count("multi_connection_histories")
+            res.case(("multi", tuple(plan)))
+        finally:
+            w.close()
+
+
 def race_section(res, tier):
     """two threads: a slow call hands its connection back while another thread checks one out.  The idle period starts
     when the release begins; explored with C08's deterministic scheduler (all schedules with <= 2 preemptions)."""
@@ -296,6 +363,7 @@ def shard(tier, seed, idx, n):
     rng = random.Random(seed * 104729 + idx)
     for _ in range(300 if tier == "quick" else 8000):
         random_history(res, rng, tier)
+    multi_connection_idle(res, rng, 150 if tier == "quick" else 4000)
     return res
 
 
